@@ -58,6 +58,9 @@ JOBS = {
         ("i_2", "CInit", "CInit_mc.cfg", 1, None, None, {}),         # initialiser lists of <= 2 items for struct S
         ("b_all", "CBytes", "CBytes_mc.cfg", 1, None, None, {}),     # bytes of every scalar type accessed through character pointers
         ("d_3", "CDecl", "CDecl_mc.cfg", 1, None, None, {}),         # <= 3 file-scope declarations of one object (6.9.2)
+        ("c_fp", "CCond", "CCond_mc.cfg", 1, None, None, {}),        # ?: with constant / run-time condition, mixed integer / floating arms
+        ("a_cp", "CCopy", "CCopy_mc.cfg", 1, None, None, {}),        # assignment of 1..8-byte structs / unions through subscripts
+        ("n_sc", "CScope", "CScope_mc.cfg", 1, None, None, {}),      # typedef names hidden by objects / parameters of inner scopes
         ("s_d2", "CStmt", "CStmt_mc.cfg", 2, None, None, {}),        # statement trees depth <= 2, <= 5 nodes
         ("s_sim", "CStmt", "CStmt_sim.cfg", 2, 4000, 60, {}),        # statement trees depth <= 3, <= 14 nodes
     ],
@@ -75,6 +78,9 @@ JOBS = {
         ("i_3", "CInit", "CInit_t.cfg", 2, None, None, {}),
         ("b_all", "CBytes", "CBytes_mc.cfg", 1, None, None, {}),
         ("d_3", "CDecl", "CDecl_mc.cfg", 1, None, None, {}),
+        ("c_fp", "CCond", "CCond_mc.cfg", 1, None, None, {}),
+        ("a_cp", "CCopy", "CCopy_mc.cfg", 1, None, None, {}),
+        ("n_sc", "CScope", "CScope_mc.cfg", 1, None, None, {}),
         ("s_d2", "CStmt", "CStmt_mc.cfg", 2, None, None, {}),
         ("s_d3", "CStmt", "CStmt_t.cfg", 8, None, None, {}),
         ("s_sim", "CStmt", "CStmt_sim.cfg", 8, 40000, 60, {}),
@@ -93,7 +99,7 @@ M64 = (1 << 64) - 1
 PRELUDE = """#include <stdio.h>
 #include <string.h>
 #define TN(e) _Generic((e), _Bool:"B", char:"c", signed char:"sc", unsigned char:"uc", short:"s", unsigned short:"us", \\
-  int:"i", unsigned:"u", long:"l", unsigned long:"ul", long long:"ll", unsigned long long:"ull", default:"?")
+  int:"i", unsigned:"u", long:"l", unsigned long:"ul", long long:"ll", unsigned long long:"ull", float:"f", double:"d", long double:"ld", default:"?")
 #define U64(e) ((unsigned long long)(e))
 enum en { E_0 = 0, E_1 = 1, E_M1 = -1, E_MAX = 0x7fffffff, E_MIN = -0x7fffffff - 1, E_31 = 31 };
 """
@@ -357,8 +363,28 @@ def mir_object_sizes(text):
     return res
 
 
+def render_gen(c, i):
+    """families whose spec emits the C text itself: file-scope lines, statements, (format, expression) pairs; @ = case number"""
+    r = lambda t: t.replace("@", str(i))
+    L = [r(g) for g in c["glob"]]
+    L.append("static void c%d(void) {" % i)
+    L.append("  printf(\"%d T\");" % i)
+    L += ["  " + r(b) for b in c["body"]]
+    L += ["  printf(\"%s\", %s);" % (f, r(e)) for f, e in c["pr"]]
+    L += ["  printf(\"\\n\");", "}"]
+    return L
+
+
 def render_file(cases, ids):
     fam = cases[0]["fam"]
+    if fam == "gen":
+        L = [PRELUDE]
+        for c, i in zip(cases, ids):
+            L += render_gen(c, i)
+        L.append("int main(void) {")
+        L += ["  c%d(); fflush(stdout);" % i for i in ids]
+        L += ["  printf(\"END\\n\");", "  return %d;" % (len(cases) % 50 + 3), "}"]
+        return "\n".join(L) + "\n"
     if fam == "decl":
         L = [PRELUDE, "struct P { int a; long b; };"]
         for c, i in zip(cases, ids):
@@ -409,6 +435,8 @@ static void run_case(void (*f)(void), int id) {
 def expected(c):
     if c["fam"] == "decl":
         return decl_expected(c, c["_id"])
+    if c["fam"] == "gen":
+        return {"T": [str(x) for x in c["exp"]]}
     return (stmt_expected(c) if c["fam"] == "stmt" else init_expected(c) if c["fam"] == "init" else bytes_expected(c) if c["fam"] == "bytes"
             else expr_expected(c))
 
@@ -508,7 +536,7 @@ class Stats:
         self.feat = collections.Counter()
 
 
-FIELDS = {"D": [], "E": [], "M": [], "Y": [], "G": [], "T": [], "U": [], "K": [], "C": ["type", "size", "value", "enum", "arr", "case"], "R": ["type", "size", "value"], "L": ["type", "size", "value"],
+FIELDS = {"T": [], "D": [], "E": [], "M": [], "Y": [], "G": [], "T": [], "U": [], "K": [], "C": ["type", "size", "value", "enum", "arr", "case"], "R": ["type", "size", "value"], "L": ["type", "size", "value"],
           "S": []}
 
 
@@ -524,6 +552,8 @@ def diff_fields(ctx, exp, got):
         names = INIT_FIELDS
     if ctx == "Y":
         names = BYTES_FIELDS
+    if ctx == "T":
+        names = ["field%d" % k for k in range(max(len(exp), len(got)))]
     if ctx == "D":
         names = DECL_FIELDS
     if ctx == "E":
@@ -697,7 +727,7 @@ K_INIT_OVR = "cinit:static:later_initialiser_of_same_scalar_ignored"
 K_INIT_PAS = "cinit:positional_initialiser_after_string_literal_member"
 K_INIT_SAB = "cinit:auto:string_literal_member_after_bitfield_or_later_member"
 CTXNAME = {"C": "const_fold", "R": "runtime", "L": "local", "S": "stmt", "*": "program", "G": "static", "T": "assigned_copy",
-           "U": "passed_and_returned", "K": "compound_literal", "Y": "bytes", "D": "use", "E": "end", "M": "emitted_object"}
+           "U": "passed_and_returned", "K": "compound_literal", "Y": "bytes", "D": "use", "E": "end", "M": "emitted_object", "T": "text"}
 NARROW = {"B", "c", "sc", "uc", "s", "us"}
 O2GROUP = {"eg-O2", "eg-O3", "el", "eb"}
 
@@ -721,6 +751,9 @@ def classify(fails):
         only_o2 = engs[id(c)] <= O2GROUP
         if c["fam"] == "bytes":
             keyed.append(("cbytes:%s:%s" % ("+".join(fields), c["sig"]), r))
+            continue
+        if c["fam"] == "gen":
+            keyed.append(("c%s:%s:%s" % (c["gfam"], "+".join(fields), c["sig"]), r))
             continue
         if c["fam"] == "decl":
             # `int a[]; int a[3];`: c2mir sizes the object by the first tentative definition (4 bytes), uses run behind it
@@ -834,13 +867,17 @@ def gen_cases(jobs, stats, maxpar=None):
         tot_states += r.states
         tot_distinct += r.distinct
         stats.cnt["tlc_wall_s"] += int(r.wall)
-        fam = {"CStmt": "stmt", "CInit": "init", "CBytes": "bytes", "CDecl": "decl"}.get(kw["module"], "expr")
+        fam = {"CStmt": "stmt", "CInit": "init", "CBytes": "bytes", "CDecl": "decl", "CCond": "gen", "CCopy": "gen",
+               "CScope": "gen"}.get(kw["module"], "expr")
         for o in r.outs:
             if "u" in o:
                 stats.cnt["dropped_%s_%s" % (fam, o["u"] if isinstance(o["u"], str) else "undefined")] += 1
                 continue
             k = ((o["c"], o["r"], json.dumps(o["lv"], sort_keys=True)) if fam == "expr" else o["body"] if fam == "stmt" else o["init"]
-                 if fam == "init" else o["sig"] if fam == "decl" else (o["sig"], o["k"], tuple(o["st"])))
+                 if fam == "init" else o["sig"] if fam == "decl" else json.dumps([o["glob"], o["body"], o["pr"]]) if fam == "gen"
+                 else (o["sig"], o["k"], tuple(o["st"])))
+            if fam == "gen":
+                o["gfam"] = o["fam"]
             if fam == "bytes":
                 o["d"] = 0
             if fam == "init":
@@ -859,6 +896,8 @@ def describe(c):
         return c["body"][:500]
     if c["fam"] == "init":
         return "struct S x = " + c["init"]
+    if c["fam"] == "gen":
+        return (" ".join(c["glob"][-3:]) + " / " + " ".join(c["body"]) + " / " + " ".join(e for _, e in c["pr"][:3]))[:600]
     if c["fam"] == "decl":
         return " ".join(d.replace("@", "o") for d in c["decls"]) + " (used after declaration %d)" % c["use"]
     if c["fam"] == "bytes":
